@@ -2111,11 +2111,45 @@ int run_c11(verif::Args const& args)
                 Nav nav(g);
                 double d0[3];
                 rng.unit3(d0);
-                nav.tv = GeoTrackInitializer{Real3{p[0], p[1], p[2]}, Real3{d0[0], d0[1], d0[2]}};
+                // A third of the points are reached the way MSC displacement and the field
+                // propagator reach theirs: the track is initialised at another point of the same
+                // volume (inside the ball of radius margin/2 around p, which holds only points of
+                // that volume) and then placed at p with move_internal(pos); the safety must be
+                // the safety *at p* at every nesting level.
+                bool via_move = rng.coin(0.35);
+                double p0[3] = {p[0], p[1], p[2]};
+                if (via_move)
+                {
+                    double dd[3];
+                    rng.unit3(dd);
+                    double rr = 0.5 * double(r.margin) * std::cbrt(rng.uniform());
+                    for (int a = 0; a < 3; ++a)
+                        p0[a] = p[a] + rr * dd[a];
+                    RefResult r0 = g.loc->locate(p0, LINF);
+                    if (!r0.valid() || r0.outside() || path_of(r0) != path_of(r)
+                        || !(r0.margin > K_TOL * g.tol_at(p0)))
+                    {
+                        via_move = false;
+                        for (int a = 0; a < 3; ++a)
+                            p0[a] = p[a];
+                    }
+                }
+                nav.tv = GeoTrackInitializer{Real3{p0[0], p0[1], p0[2]}, Real3{d0[0], d0[1], d0[2]}};
                 if (nav.tv.failed() || nav.path() != path_of(r))
                 {
                     rep.inconclusive("navigator start state differs from the reference (judged by C03)");
                     continue;
+                }
+                if (via_move)
+                {
+                    nav.tv.move_internal(Real3{p[0], p[1], p[2]});
+                    wit["reached_by"] = "move_internal(pos)";
+                    wit["initialised_at"] = jhex3(Real3{p0[0], p0[1], p0[2]});
+                    if (nav.tv.failed() || nav.path() != path_of(r))
+                    {
+                        rep.inconclusive("navigator state after move_internal(pos) differs from the reference (judged by C03)");
+                        continue;
+                    }
                 }
                 double s = nav.tv.find_safety();
                 wit["safety"] = s;
@@ -2290,7 +2324,7 @@ int run_c11(verif::Args const& args)
                     rep.violation(key, "a ray from the point meets a boundary before travelling the safety distance", wit);
                     continue;
                 }
-                std::string cell = ntype + "|" + side + "|L" + std::to_string(nlevel) + "|" + sclass + "|" + pclass
+                std::string cell = ntype + "|" + side + "|L" + std::to_string(nlevel) + "|" + sclass + "|" + pclass + (via_move ? "|after-move_internal(pos)" : "")
                                    + (on_centre ? "|on-centre" : "");
                 rep.held(cell);
                 rep.observe("safety_class:" + sclass);
